@@ -686,7 +686,16 @@ func (f Function) lambdaPrint(ps *ast.PrintState, out *strings.Builder) string {
 	needBraces := len(f.Body.Statements) != 1 ||
 		f.Body.Statements[0].Value().Type() == token.LBRACE ||
 		f.Body.Statements[0].Value().Type() == token.LAMBDA
-	// also when the single statement merely starts with a map literal, e.g. ()=>{{}()}, or it'd be read as the block.
+	// also when the single statement is an operation binding less than => (x=>{a=1} isn't (x=>a)=1)
+	if len(f.Body.Statements) == 1 {
+		if e, ok := f.Body.Statements[0].(*ast.InfixExpression); ok && ast.Precedences[e.Type()] <= ast.LAMBDA {
+			needBraces = true
+		}
+		if _, ok := f.Body.Statements[0].(*ast.ReturnStatement); ok { // return is a statement, not an expression.
+			needBraces = true
+		}
+	}
+	// or when it merely starts with a map literal, e.g. ()=>{{}()}, or it'd be read as the block.
 	body := strings.Builder{}
 	f.Body.PrettyPrint(&ast.PrintState{Out: &body, Compact: ps.Compact, AllParens: ps.AllParens})
 	needBraces = needBraces || strings.HasPrefix(body.String(), "{")
